@@ -111,6 +111,9 @@ class FileFormat():
                 # zone-aware values keep their UTC offset
                 dialect = dict(dialect, format=dialect['format'] + '%z')
                 serializer = cls.with_offset(serializer)
+            if field['type'] in ('number', 'integer') and 'bareNumber' in field:
+                # numbers are written bare: a reader told otherwise strips the sign of '-5'
+                dialect = dict(dialect, bareNumber=True)
             if dialect:
                 # constraint values follow the serialisation the written file is declared with
                 native = native_constraints(field)
